@@ -49,6 +49,7 @@ class Ctx:
         self.assumptions = []
         self.discrepancies = []     # (sig, what, replay)
         self.known_seen = {}
+        self.known_sigs = set()
         self.violations = []
         self.notes = []
         self.kf = load_known()
@@ -354,11 +355,16 @@ class Ctx:
     def discrepancy(self, sig, what, replay=None):
         """A behaviour of the real code that the spec does not allow. sig is the canonical signature."""
         for f in self.kf:
-            if f.get("status") == "open" and f["property"] == self.prop and sig_match(f["signature"], sig):
+            if f.get("status") == "open" and f["property"] == self.prop and \
+                    any(sig_match(pat, sig) for pat in (f.get("signatures") or [f["signature"]])):
                 if f["id"] not in self.known_seen:
                     self.known_seen[f["id"]] = 0
                     print("KNOWN-FINDING: property=%s %s [%s] %s" % (self.prop, f["id"], sig, f["what"]), flush=True)
                 self.known_seen[f["id"]] += 1
+                if os.environ.get("VERIF_SHOW_KNOWN") and (f["id"], sig) not in self.known_sigs:
+                    # development aid: every distinct signature a known finding absorbs
+                    self.known_sigs.add((f["id"], sig))
+                    print("KNOWN-SIG: %s %s" % (f["id"], sig), flush=True)
                 return False
         if any(v[0] == sig for v in self.violations):
             self.violations.append((sig, what, replay))
